@@ -14,8 +14,10 @@ TGenerate == Is("Generate") /\ Ev.gombok /\ Ev.build /\ Ev.vet /\ Ev.driver /\ A
 TStruct == /\ Is("Struct") /\ Adv
            /\ Ev.json => /\ {"MarshalJSON", "UnmarshalJSON"} \subseteq ToSet(Ev.has)
                           /\ Ev.law.json /\ Ev.law.jsontwin /\ Ev.law.jsonfuzz
+TrSome(v) == "Some(" \o v \o ")"
+TOp == Is("Op") /\ Adv          \* (C07's)
 TDetail == Is("JsonDetail") /\ Adv
-TNext == TGenerate \/ TStruct \/ TDetail
+TNext == TGenerate \/ TStruct \/ TOp \/ TDetail
 TInit == l = 1 /\ shape = <<>> /\ x = <<>> /\ y = <<>> /\ step = <<"init", 0, 0>>
 TSpec == TInit /\ [][TNext]_<<l, gbvars>>
 HighWater == TLCSet(1, IF TLCGet(1) < l THEN l ELSE TLCGet(1))
